@@ -250,6 +250,14 @@ def binop(op, a, b, ty):
 
 # --------------------------------------------------------------------------------------------------------
 
+def _std_name(adt):
+    """core:: / alloc:: and std:: name the same library types (a no_std build prints the former)"""
+    for pre in ("core::", "alloc::"):
+        if adt.startswith(pre):
+            return "std::" + adt[len(pre):]
+    return adt
+
+
 class Frame:
     __slots__ = ("key", "fn", "subst", "parent", "call_block", "depth", "ambient", "cfg")
 
@@ -461,8 +469,8 @@ class Engine:
         if same:
             return first
         ops = {v.op for v in vals}
-        if ops == {"enum"} and len({v.args[0] for v in vals}) == 1:
-            adt = first.args[0]
+        if ops == {"enum"} and len({_std_name(v.args[0]) for v in vals}) == 1:
+            adt = _std_name(first.args[0])
             by = {}
             for pred, v in inc.items():
                 for alt in v.args[1]:
